@@ -13,7 +13,11 @@ pub fn drive(log: &mut Log) {
         let mut rng = Rng::new(seed, 20, case);
         let sum = case % 2 == 0;
         // every small length exhaustively often, plus powers of two +-1 and up to 100
-        let len = match rng.below(4) {
+        let len = match rng.below(5) {
+            4 => {
+                log.oblige("fenwick_len_beyond_65536");
+                *rng.pick(&[65_535usize, 65_536, 65_537, (1 << 20) - 1, 1 << 20, (1 << 20) + 1, 3_000_000])
+            }
             0 => rng.range(1, 9) as usize,
             1 => *rng.pick(&[15usize, 16, 17, 31, 32, 33, 63, 64, 65]),
             _ => rng.range(1, 100) as usize,
